@@ -336,37 +336,51 @@ func checkWrap(c WrapCell, vs map[string]variant, res *result) {
 		res.add("C15", c, params, "Check rejected a documented signature: "+err.Error())
 		return
 	}
-	h := fi.SetStrict(c.Strict).AllowArray(c.AllowArray).Wrap()
-	got = nil
-	_, herr, p := callSafely(h, mkReq(params))
-	res.Evaluations++
-	res.Classes["wrap/"+c.Out]++
-	switch {
-	case p != nil:
-		res.add("C15", c, params, fmt.Sprintf("wrapper panicked: %v", p))
-	case c.Out == "invalid":
-		if len(got) != 0 {
-			res.add("C15", c, params, fmt.Sprintf("function was called with %+v, want InvalidParams without a call", got[0]))
-		} else if !isInvalidParams(herr) {
-			res.add("C15", c, params, fmt.Sprintf("error %v, want InvalidParams", herr))
+	for _, prior := range []string{"", "objExact", "objWrongType", "objUnknown", "arrWrongType"} {
+		h := fi.SetStrict(c.Strict).AllowArray(c.AllowArray).Wrap()
+		hist := ""
+		if prior != "" { // the same handler first serves another request (accepted or rejected): it must leave no trace
+			pp, ok := v.params[prior]
+			if !ok {
+				continue
+			}
+			if _, _, pn := callSafely(h, mkReq(pp)); pn != nil {
+				res.add("C15", c, pp, fmt.Sprintf("wrapper panicked: %v", pn))
+			}
+			hist = " (after the same handler served " + pp + ")"
+			res.Classes["wrap/with-history"]++
 		}
-	case c.Out == "called":
-		if herr != nil || len(got) != 1 {
-			res.add("C15", c, params, fmt.Sprintf("err=%v, %d calls; want exactly one call", herr, len(got)))
-			return
-		}
-		want := v.zero()
-		strict := c.Strict || c.V == "SDUF"
-		if err := expectValue(params, v.names, want, strict); err != nil {
-			res.add("C15", c, params, "reference decoding disagrees with the table (harness inconsistency): "+err.Error())
-			return
-		}
-		g := reflect.ValueOf(got[0])
-		if g.Kind() == reflect.Ptr {
-			g = g.Elem()
-		}
-		if !reflect.DeepEqual(g.Interface(), reflect.ValueOf(want).Elem().Interface()) {
-			res.add("C15", c, params, fmt.Sprintf("function received %+v, encoding/json decodes %+v", g.Interface(), reflect.ValueOf(want).Elem().Interface()))
+		got = nil
+		_, herr, p := callSafely(h, mkReq(params))
+		res.Evaluations++
+		res.Classes["wrap/"+c.Out]++
+		switch {
+		case p != nil:
+			res.add("C15", c, params, fmt.Sprintf("wrapper panicked: %v", p))
+		case c.Out == "invalid":
+			if len(got) != 0 {
+				res.add("C15", c, params, fmt.Sprintf("function was called with %+v, want InvalidParams without a call", got[0]))
+			} else if !isInvalidParams(herr) {
+				res.add("C15", c, params, fmt.Sprintf("error %v, want InvalidParams", herr))
+			}
+		case c.Out == "called":
+			if herr != nil || len(got) != 1 {
+				res.add("C15", c, params, fmt.Sprintf("err=%v, %d calls; want exactly one call", herr, len(got)))
+				return
+			}
+			want := v.zero()
+			strict := c.Strict || c.V == "SDUF"
+			if err := expectValue(params, v.names, want, strict); err != nil {
+				res.add("C15", c, params, "reference decoding disagrees with the table (harness inconsistency): "+err.Error())
+				return
+			}
+			g := reflect.ValueOf(got[0])
+			if g.Kind() == reflect.Ptr {
+				g = g.Elem()
+			}
+			if !reflect.DeepEqual(g.Interface(), reflect.ValueOf(want).Elem().Interface()) {
+				res.add("C15", c, params, fmt.Sprintf("function received %+v, encoding/json decodes %+v%s", g.Interface(), reflect.ValueOf(want).Elem().Interface(), hist))
+			}
 		}
 	}
 }
@@ -454,11 +468,33 @@ var posKinds = []struct {
 	t     reflect.Type
 	good  string
 	wrong string
+	alt   string // another good value (for the requests that precede the judged one on the same handler)
 }{
 	// values chosen so that they do not survive a detour through float64 / generic decoding
-	{reflect.TypeOf(int64(0)), `9007199254740993`, `"s"`}, {reflect.TypeOf(""), `"x"`, `5`},
-	{reflect.TypeOf(json.RawMessage(nil)), `{"b":1,"a":0.10000000000000000001}`, ``}, {reflect.TypeOf(uint64(0)), `18446744073709551615`, `-1`},
-	{reflect.TypeOf(false), `true`, `"s"`}, {reflect.TypeOf(S2{}), `{"a":9223372036854775807,"b":"y"}`, `5`},
+	{reflect.TypeOf(int64(0)), `9007199254740993`, `"s"`, `42`}, {reflect.TypeOf(""), `"x"`, `5`, `"alt"`},
+	{reflect.TypeOf(json.RawMessage(nil)), `{"b":1,"a":0.10000000000000000001}`, ``, `[1]`}, {reflect.TypeOf(uint64(0)), `18446744073709551615`, `-1`, `7`},
+	{reflect.TypeOf(false), `true`, `"s"`, `true`}, {reflect.TypeOf(S2{}), `{"a":9223372036854775807,"b":"y"}`, `5`, `{"a":1,"b":"q"}`},
+}
+
+// posPriors are requests served by the same handler before the judged one: an accepted one and two that are
+// rejected after part of them has been decoded.  A handler has no memory: the judged outcome must not depend on them.
+func posPriors(n int, names []string) []string {
+	alt := make([]string, n)
+	var kv []string
+	for i := range alt {
+		alt[i] = posKinds[i%len(posKinds)].alt
+		kv = append(kv, fmt.Sprintf("%q:%s", names[i], alt[i]))
+	}
+	out := []string{"\x00none", "[" + strings.Join(alt, ",") + "]", "{" + strings.Join(kv, ",") + `,"zzz":1}`}
+	for at := n - 1; at >= 0; at-- {
+		if w := posKinds[at%len(posKinds)].wrong; w != "" {
+			bad := append([]string(nil), alt...)
+			bad[at] = w
+			out = append(out, "["+strings.Join(bad, ",")+"]")
+			break
+		}
+	}
+	return out
 }
 
 func checkPos(c PosCell, res *result) {
@@ -541,45 +577,57 @@ func checkPos(c PosCell, res *result) {
 				missing[i] = true
 			}
 		}
-		for _, ctor := range []string{"Positional", "NewPos"} {
-			var h jrpc2.Handler
-			if ctor == "Positional" {
-				fi, err := handler.Positional(fv.Interface(), names...)
-				if err != nil {
-					res.add("C16", c, params, "Positional rejected n names for n arguments: "+err.Error())
-					return
-				}
-				h = fi.Wrap()
-			} else {
-				h = handler.NewPos(fv.Interface(), names...)
-			}
-			seen = nil
-			v, herr, p := callSafely(h, mkReq(params))
-			res.Evaluations++
-			res.Classes["pos/"+c.Out]++
-			switch {
-			case p != nil:
-				res.add("C16", c, params, fmt.Sprintf("wrapper panicked: %v", p))
-			case c.Out == "invalid":
-				if len(seen) != 0 {
-					res.add("C16", c, params, "function was called, want InvalidParams without a call")
-				} else if !isInvalidParams(herr) {
-					res.add("C16", c, params, fmt.Sprintf("error %v, want InvalidParams", herr))
-				}
-			case c.Out == "called":
-				if herr != nil || len(seen) != 1 || v != 11 {
-					res.add("C16", c, params, fmt.Sprintf("err=%v result=%v calls=%d; want one call and its result unchanged", herr, v, len(seen)))
-					continue
-				}
-				for i, a := range seen[0] {
-					want := reflect.New(in[i+1])
-					if !missing[i] { // a null element is decoded like any other (encoding/json leaves most types at zero for null)
-						if err := json.Unmarshal([]byte(elems[i]), want.Interface()); err != nil {
-							res.add("C16", c, params, "harness: "+err.Error())
-						}
+		for pi, prior := range posPriors(n, names) {
+			for _, ctor := range []string{"Positional", "NewPos"} {
+				var h jrpc2.Handler
+				if ctor == "Positional" {
+					fi, err := handler.Positional(fv.Interface(), names...)
+					if err != nil {
+						res.add("C16", c, params, "Positional rejected n names for n arguments: "+err.Error())
+						return
 					}
-					if !reflect.DeepEqual(a.Interface(), want.Elem().Interface()) {
-						res.add("C16", c, params, fmt.Sprintf("argument %d: got %#v, want %#v", i+1, a.Interface(), want.Elem().Interface()))
+					h = fi.Wrap()
+				} else {
+					h = handler.NewPos(fv.Interface(), names...)
+				}
+				if pi > 0 {
+					if _, _, pp := callSafely(h, mkReq(prior)); pp != nil {
+						res.add("C16", c, prior, fmt.Sprintf("wrapper panicked: %v", pp))
+					}
+					res.Classes["pos/with-history"]++
+				}
+				seen = nil
+				v, herr, p := callSafely(h, mkReq(params))
+				res.Evaluations++
+				res.Classes["pos/"+c.Out]++
+				switch {
+				case p != nil:
+					res.add("C16", c, params, fmt.Sprintf("wrapper panicked: %v", p))
+				case c.Out == "invalid":
+					if len(seen) != 0 {
+						res.add("C16", c, params, "function was called, want InvalidParams without a call")
+					} else if !isInvalidParams(herr) {
+						res.add("C16", c, params, fmt.Sprintf("error %v, want InvalidParams", herr))
+					}
+				case c.Out == "called":
+					if herr != nil || len(seen) != 1 || v != 11 {
+						res.add("C16", c, params, fmt.Sprintf("err=%v result=%v calls=%d; want one call and its result unchanged", herr, v, len(seen)))
+						continue
+					}
+					for i, a := range seen[0] {
+						want := reflect.New(in[i+1])
+						if !missing[i] { // a null element is decoded like any other (encoding/json leaves most types at zero for null)
+							if err := json.Unmarshal([]byte(elems[i]), want.Interface()); err != nil {
+								res.add("C16", c, params, "harness: "+err.Error())
+							}
+						}
+						if !reflect.DeepEqual(a.Interface(), want.Elem().Interface()) {
+							hist := ""
+							if pi > 0 {
+								hist = " (after the same handler served " + prior + ")"
+							}
+							res.add("C16", c, params, fmt.Sprintf("argument %d: got %#v, want %#v%s", i+1, a.Interface(), want.Elem().Interface(), hist))
+						}
 					}
 				}
 			}
